@@ -14,13 +14,16 @@ type File struct {
 
 // Rev is a recorded revision.
 type Rev struct {
-	Version string
-	Applied int
-	Total   int
+	Version  string
+	Applied  int
+	Total    int
+	Resolved bool // marked applied by `migrate set`
 }
 
-// Partial reports whether the revision is partially applied.
-func (r Rev) Partial() bool { return r.Applied != r.Total }
+// Partial reports whether the revision is partially applied. A revision the operator
+// resolved with `migrate set` is considered applied ("consider all migrations up to and
+// including the given version to be applied").
+func (r Rev) Partial() bool { return r.Applied != r.Total && !r.Resolved }
 
 // Options of a pending computation.
 type Options struct {
@@ -166,4 +169,34 @@ func Pending(files []File, revs []Rev, o Options) Decision {
 	}
 	d.Pending = p
 	return d
+}
+
+// Set computes the documented effect of `migrate set v` on the history: revisions above v
+// are removed, a partial or failed revision at v is marked resolved, and every file after
+// the last remaining revision up to and including v gets a resolved revision.
+func Set(files []File, revs []Rev, v string) []Rev {
+	files = append([]File(nil), files...)
+	sort.Slice(files, func(i, j int) bool { return files[i].Name < files[j].Name })
+	var out []Rev
+	for _, r := range revs {
+		switch {
+		case r.Version > v:
+		case r.Version == v && r.Applied != r.Total:
+			r.Resolved = true
+			out = append(out, r)
+		default:
+			out = append(out, r)
+		}
+	}
+	sort.Slice(out, func(i, j int) bool { return out[i].Version < out[j].Version })
+	last := ""
+	if len(out) > 0 {
+		last = out[len(out)-1].Version
+	}
+	for _, f := range files {
+		if f.Version > last && f.Version <= v {
+			out = append(out, Rev{Version: f.Version, Resolved: true})
+		}
+	}
+	return out
 }
